@@ -184,4 +184,50 @@ theorem announce_after_close_dropped (cfg : WsCfg) (m : WMap) (p : Pending) (c :
   have hm : c ∈ p.closed := by simpa using hc
   simp [drainStep, hr, hm]
 
+/-! ### the two tasks of one connection (reader, writer) and the last reply
+
+`ConnectionRunner::run_inner` races a reader and a writer task over one local queue of outgoing
+messages; the connection ends when either returns.  An entry of the queue is the message and its
+`close_connection` mark.  The writer sends the queue in order and returns after the first marked
+message; a reader that returns by itself ends the connection with whatever the writer has not sent
+yet still queued. -/
+
+/-- the writer task on a queue nothing is added to any more: what it sends, and whether it ends the
+connection itself -/
+def writerRun {μ : Type} : List (μ × Bool) → List μ × Bool
+  | [] => ([], false)                       -- waits for more
+  | (m, true) :: _ => ([m], true)           -- sent, then `return Err(..)`
+  | (m, false) :: t => let r := writerRun t; (m :: r.1, r.2)
+
+/-- the end of a connection whose reader has queued `last` as its final message, given how many of
+the queued messages the writer got to send before the reader's decision took effect:
+`readerReturns = true` is the pinned behaviour (the reader returns an error right after queueing, the
+race drops the writer where it is), `false` the repaired one (the message carries the mark, the
+reader parks, the writer ends the connection) -/
+def connectionEnd {μ : Type} (readerReturns : Bool) (queued : List μ) (last : μ) (writerDone : Nat) : List μ :=
+  if readerReturns then queued.take writerDone
+  else (writerRun (queued.map (·, false) ++ [(last, true)])).1
+
+theorem writerRun_marked_last {μ : Type} (q : List μ) (last : μ) :
+    writerRun (q.map (·, false) ++ [(last, true)]) = (q ++ [last], true) := by
+  induction q with
+  | nil => rfl
+  | cons a t ih => simp [writerRun, ih]
+
+/-- **the refusal reaches the client**: with the mark, everything queued before the error reply and
+the error reply itself are sent, in order, before the connection ends — whatever the scheduling -/
+theorem marked_reply_is_sent {μ : Type} (queued : List μ) (last : μ) (k : Nat) :
+    connectionEnd false queued last k = queued ++ [last] := by
+  simp [connectionEnd, writerRun_marked_last]
+
+/-- F14 on the pinned tree: the reader's return ends the race with the reply still queued — it is
+never among the messages sent, however far the writer got -/
+theorem unmarked_reply_is_lost {μ : Type} (queued : List μ) (last : μ) (k : Nat) :
+    (connectionEnd true queued last k).length ≤ queued.length := by
+  simp only [connectionEnd, if_true, List.length_take]
+  exact Nat.min_le_right _ _
+
+example : connectionEnd false ["offer", "reply"] "error" 0 = ["offer", "reply", "error"] := by decide
+example : connectionEnd true ["offer", "reply"] "error" 1 = ["offer"] := by decide
+
 end Aquatic.Ws.C17
